@@ -704,6 +704,18 @@ where
         format!("ipa-{}", G::CURVE)
     }
     #[cfg(feature = "full")]
+    fn forged_claims(
+        scn: &crate::scenario::Scenario,
+        sess: &crate::session::Sess<Self>,
+        op: &crate::scenario::Op,
+        honest: &crate::session::Claim<Self>,
+        pos: usize,
+        pre_verifier: &crate::seams::TraceSponge<Self::F>,
+        f: &crate::scenario::Fault,
+    ) -> Vec<(String, crate::session::Claim<Self>)> {
+        crate::ipa_forge::forge::<Self, G>(scn, sess, op, honest, pos, pre_verifier, f)
+    }
+    #[cfg(feature = "full")]
     fn combine_comms(terms: &[(Self::F, &Comm<Self>)]) -> Option<Comm<Self>> {
         use ark_ec::CurveGroup;
         use std::ops::Mul;
